@@ -163,6 +163,12 @@ def layouts(pat, old, new, fmt, tier):
         if len(s) == 2 and not any(fp.anchor_l or fp.anchor_r for fp in s):
             f = projgen.build_file("a.txt", s, ("one-line", (1, 0)), "ascii", "CRLF", False)
             yield (f"one-line:{ids}", [f], [("a.txt", [fp.raw for fp in s])])
+        # a file that begins with a UTF-8 byte order mark (.NET / Windows editors), with the occurrence further down and on line 1
+        for regime, arr in (("CRLF", "own-lines"), ("LF", "single-line")):
+            if arr == "single-line" and len(s) != 1:
+                continue
+            f = projgen.build_file("a.txt", s, arr, "accent", regime, True, bom=True)
+            yield (f"bom:{arr}:{ids}:{regime}", [f], [("a.txt", [fp.raw for fp in s])])
         if any(fp.pid in ("majmin", "maj", "copyright") for fp in s) and len(s) == 1:
             # a file whose only pattern is partial, and whose content LAGS behind current_version (stale file / tag ahead):
             # patterns match any version, so the real run brings it up to date - the dry diff must show exactly that
